@@ -166,9 +166,12 @@ func oracleJoinCase(t *testing.T, lines [][]string) string {
 				}
 			case "stream", "ustream":
 				toks := strings.Fields(trace)
+				if sb := r.subs[toks[1]]; sb != nil && sb.unreg {
+					continue // unregistered: the harness itself counts events that arrive later; contents are the Lean side's
+				}
 				if b, ok := base[toks[1]]; ok {
 					if x := goMonitor(b, toks[2:], tokensOf(spec, ""), notU); x != "" {
-						if r.flagged && r.nested { // every key is in U: also a malformed event belongs to the known class
+						if r.flagged && r.nested && strings.Contains(x, "malformed") { // an event that names no key: known class
 							fail("f6:stream", where+":"+x)
 						} else {
 							fail("stream", where+":"+x)
